@@ -315,3 +315,101 @@ func waitingReadCoalesced(c *Ctx, who string) {
 		c.Count(id, true, "stream:waiting-read-coalesced")
 	}
 }
+
+// cutInsideFrame (F65): the adversary truncates the stream — the connection ends after any number of bytes. What was released
+// is the plaintext of the whole frames before the cut (C05's prefix clause); and a cut INSIDE a frame is reported as an
+// error, not as the end of the stream: `io.EOF` means "the peer closed between two frames" (which no receiver can tell
+// from a cut exactly there). Every cut position of a stream of a few frames, the bytes arriving in one or several segments.
+func cutInsideFrame(c *Ctx, who string) {
+	for i := 0; i < c.Pick(6, 60); i++ {
+		r := c.CaseRng("cut-inside-frame", i)
+		var key [32]byte
+		copy(key[:], randBytes(r, 32))
+		peer := newRefControllerSession(key[:])
+		var stream []byte
+		var ends []int // stream offsets behind each frame
+		var plain [][]byte
+		for k := 0; k < 1+r.Intn(3); k++ {
+			m := randBytes(r, 1+r.Intn(40))
+			if i%3 == 0 && k == 0 {
+				m = randBytes(r, 1024+r.Intn(700)) // two frames
+			}
+			fr := peer.Encrypt(m)
+			for off := 0; off < len(m); off += 1024 {
+				end := off + 1024
+				if end > len(m) {
+					end = len(m)
+				}
+				plain = append(plain, m[off:end])
+				last := 0
+				if len(ends) > 0 {
+					last = ends[len(ends)-1]
+				}
+				ends = append(ends, last+2+(end-off)+16)
+			}
+			stream = append(stream, fr...)
+		}
+		var cuts []int
+		for cut := 0; cut <= len(stream); cut++ {
+			atEdge := cut < 4
+			for _, e := range ends {
+				if cut >= e-3 && cut <= e+3 {
+					atEdge = true
+				}
+			}
+			if atEdge || c.Thorough() || r.Intn(40) == 0 {
+				cuts = append(cuts, cut)
+			}
+		}
+		for _, cut := range cuts {
+			id := fmt.Sprintf("%s.%d", c.CaseID("cut-inside-frame", i), cut)
+			if c.Skip(id) {
+				continue
+			}
+			var script []c07Ev
+			for off := 0; off < cut; {
+				n := cut - off
+				if r.Intn(2) == 0 {
+					n = 1 + r.Intn(n)
+				}
+				script = append(script, c07Ev{Kind: 's', B: stream[off : off+n]})
+				off += n
+			}
+			script = append(script, c07Ev{Kind: 'c'})
+			sc := &c07Conn{script: script}
+			ctx := hap.NewContextForSecuredDevice(nil)
+			conn := hap.NewConnection(sc, ctx)
+			sec, _ := crypto.NewSecureSessionFromSharedKey(key)
+			ctx.GetSessionForConnection(sc).SetCryptographer(sec)
+			responseWritten(ctx, sc)
+			var got []byte
+			var rerr error
+			msg, pan := safely(func() { got, rerr = ioutil.ReadAll(conn) })
+			whole, want := 0, []byte{}
+			for k, e := range ends {
+				if e <= cut {
+					whole = e
+					want = append(want, plain[k]...)
+				}
+			}
+			inside := cut > whole
+			in := map[string]interface{}{"frames_end_at_stream_offsets": ends, "the_stream_ends_after_bytes": cut, "segments": len(script) - 1,
+				"inside_a_frame": inside}
+			switch {
+			case pan:
+				c.Violate(who+" reading a truncated stream panics", id, in, "data, then an error", msg)
+			case !bytes.Equal(got, want):
+				c.Violate(who+" what is released of a truncated stream is not the plaintext of the whole frames before the cut", id, in, fmt.Sprintf("%d bytes", len(want)), fmt.Sprintf("%d bytes", len(got)))
+			case inside && rerr == nil:
+				c.Violate(who+" a stream that ends inside a frame is reported as a clean end of stream (ioutil.ReadAll: no error): the reader cannot tell the cut frame from an orderly close", id, in,
+					"an error (io.ErrUnexpectedEOF)", fmt.Sprintf("%d bytes released, err=nil", len(got)))
+			case !inside && rerr != nil:
+				c.Violate(who+" a stream that ends between two frames is reported as an error", id, in, "end of stream", rerr.Error())
+			}
+			if inside && !sc.closed {
+				c.Violate(who+" the connection is not closed after the stream ended inside a frame", id, in, "closed", "open")
+			}
+			c.Count(id, inside, "stream:cut-inside-frame", fmt.Sprintf("cut-inside-frame:inside=%v", inside))
+		}
+	}
+}
